@@ -292,6 +292,7 @@ pub struct RintcAffinity {
     r#type: u8,
     length: u8,
     reserved: U16,
+    proximity_domain: U32,
     acpi_processor_uid: [u8; 4],
     flags: U32,
     clock_domain: U32,
@@ -309,6 +310,7 @@ impl RintcAffinity {
             r#type: SratStructureType::RintcAffinity as u8,
             length: 20,
             reserved: 0.into(),
+            proximity_domain: 0.into(),
             acpi_processor_uid,
             flags: 0.into(),
             clock_domain: clock_domain.into(),
@@ -317,6 +319,12 @@ impl RintcAffinity {
 
     pub fn enabled(mut self) -> Self {
         self.flags = (self.flags.get() | Self::FLAGS_ENABLED).into();
+        self
+    }
+
+    /// The proximity domain to which the hart belongs
+    pub fn proximity_domain(mut self, proximity_domain: u32) -> Self {
+        self.proximity_domain = proximity_domain.into();
         self
     }
 
